@@ -186,7 +186,7 @@ func runC03(ctx *core.Ctx, unit int) {
 	}
 	// (b) <=2 (thorough <=3 on small templates) insertions from the small alphabet
 	k2 := 2
-	if ctx.Thorough() && len(gen.Gaps(t.Src)) <= 40 {
+	if ctx.Thorough() && len(gen.Gaps(t.Src)) <= 34 {
 		k2 = 3
 	}
 	forEachInsertion(ctx, t, c03Small, k2, shard, c03Shards, func(cand string, ins []gen.Ins, _ []int) {
